@@ -203,19 +203,39 @@ def check(pid, tier, seed):
     candidates = []  # cases the failing-input search should try first
     with Lock():
         data, changed = translate.translate()
-        targets = list(prop.LEAN_MODULES) + list(getattr(prop, "DRIVERS", []))
+        import bridges
+        bridge_mods, bridge_skipped = bridges.modules_for(pid)
+        targets = list(prop.LEAN_MODULES) + bridge_mods + list(getattr(prop, "DRIVERS", []))
         ok, failed, log, bdt = lake_build(targets)
         if not ok:
-            data_fail = [m for m in failed if re.match(r"Barril\.Gen\.(?!Thm)", m)]
+            # a definition generated from the source text (Gen.Code*) that no longer elaborates is a broken tie
+            # between code and model, like a bridge theorem that no longer checks - not an infrastructure error
+            code_fail = [m for m in failed if m.startswith("Barril.Gen.Code")]
+            for m in code_fail:
+                breaks.append(("bridge", "the definitions generated from the current source text (%s) no longer "
+                                         "elaborate: %s" % (m, "; ".join(re.findall(r"error: ([^\n]*)", log)[:3])[:300])))
+            data_fail = [m for m in failed if re.match(r"Barril\.Gen\.(?!Thm)(?!Code)", m)]
             model_fail = [m for m in failed if not m.startswith("Barril.Gen.")]
             if data_fail:
                 raise Infra("generated data does not elaborate: %s\n%s" % (data_fail, log[-1500:]))
             thm_fail = [m for m in failed if m.startswith("Barril.Gen.Thm")]
             # theorem and lemma modules can stop checking because of the regenerated tables they are stated over
             # (they build on the unchanged tree: setup and every earlier run); model and driver sources cannot
+            bridge_fail = [m for m in model_fail if m.startswith("Barril.Bridge.")]
+            for m in bridge_fail:
+                if not code_fail:
+                    err = re.findall(r"error: (%s[^\n]*)" % re.escape(m.replace(".", "/")), log)
+                    untr = [r for r in data.get("code", []) if not r.get("translated")
+                            and r["function"] in bridges.GENERATED_FROM.get(m, [])]
+                    breaks.append(("bridge", "bridge module %s no longer checks: the definition generated from the "
+                                             "current source text of %s is no longer proved equal to the model%s: %s" % (
+                        m, ", ".join(bridges.GENERATED_FROM.get(m, [])),
+                        (" (outside the translatable subset: %s)" % untr[0]["why"]) if untr else "",
+                        "; ".join(err[:3])[:300])))
+            model_fail = [m for m in model_fail if m not in bridge_fail]
             stated_fail = [m for m in model_fail if m.startswith(("Barril.Props.", "Barril.Proofs."))]
             other_fail = [m for m in model_fail if m not in stated_fail]
-            if other_fail and not thm_fail:
+            if other_fail and not thm_fail and not bridge_fail and not code_fail:
                 raise Infra("hand-written Lean no longer builds: %s\n%s" % (other_fail, log[-3000:]))
             for m in thm_fail:
                 breaks.append(("theorem", "table theorem module %s no longer checks (decide +kernel is false on "
@@ -242,11 +262,11 @@ def check(pid, tier, seed):
         obligations, discharged, problems = [], [], []
         adt = 0.0
         if ok:
-            obligations, discharged, problems, adt = audit(list(prop.LEAN_MODULES))
+            obligations, discharged, problems, adt = audit(list(prop.LEAN_MODULES) + bridge_mods)
             for p in problems:
                 breaks.append(("audit", p))
         else:
-            for m in prop.LEAN_MODULES:
+            for m in list(prop.LEAN_MODULES) + bridge_mods:
                 obligations += theorems_of(m)
         if ok and tier == "thorough":
             lc_ok, lc_log, lc_n, lc_dt = leanchecker(list(prop.LEAN_MODULES))
@@ -263,6 +283,11 @@ def check(pid, tier, seed):
         ctx.notes["non_vacuity_examples"] = examples_note
     if moved:
         ctx.notes["source_changed_since_fingerprint"] = moved
+    if bridge_mods or bridge_skipped:
+        want = {f for m in bridge_mods for f in bridges.GENERATED_FROM.get(m, [])}
+        ctx.notes["code_regenerated_from_source"] = dict(
+            bridge_modules=bridge_mods, skipped_in_private_lean_copy=bridge_skipped,
+            functions=[r for r in data.get("code", []) if r["function"] in want])
     if hasattr(prop, "setup"):
         prop.setup(ctx)
     if breaks and hasattr(prop, "table_candidates"):
